@@ -14,7 +14,12 @@ B_PROPS = {"C01", "C02", "C03", "C08", "C10", "C14"}
 TECH = "Lean 4 proof + model/implementation correspondence"
 
 PROPS = {
-    "C01": {"engines": [CODEC], "claimed": False},
+    "C01": {
+        "engines": [CODEC],
+        "text": "Lean 4 theorems C01_marshal_total and C01_roundtrip: for every well-formed schema and every well-typed value (valid UTF-8 strings, storable unknown sets), in both marshal modes and for any map iteration order, the model of proto.Marshal succeeds and the model of proto.Unmarshal of those bytes into a fresh message returns a value equal to the original up to representation (every scalar bit-exact: -0.0, NaN payloads, extreme integers; oneof choice incl. zero-valued members; map contents; nested messages; unknown fields byte for byte); plus the reference round trip (C01_reference_roundtrip) and that encodings are WellTyped. The proof composes C02/C04 (encoder = reference), the reference round trip and C03 (decoder = reference). Tied on every run: real Marshal/Unmarshal round trips compared through the Go-reflect struct view, and model vs real bytes.",
+        "note": "trusted: Lean kernel; correspondence sampling (boundary pools per kind, nil-vs-empty, nil junk, depth <= 4, unknown tails); encodings are assumed shorter than 2^63 bytes (true of every Go slice)",
+        "design": "DESIGN.md §3 C01",
+    },
     "C02": {
         "engines": [CODEC],
         "text": "Lean 4 theorem C02_det_eq_reference: for every well-formed schema and every well-typed value, the model of the generated deterministic Marshal returns exactly the bytes of the model of protobuf-go's reflection-driven encoder (plus key-bytes = protowire tag and the extracted wire-type table). Both models are tied on every run: Impl model vs the real generated code (checked-in and freshly generated corpus types), Spec model vs real dynamicpb.",
@@ -130,6 +135,12 @@ PROPS = {
 }
 
 REQUIRED = {
+    "C01": ["C01_marshal_total", "C01_roundtrip", "C01_reference_roundtrip", "C01_reference_encoding_wellTyped"],
+    "C12": ["C12_unknown_feature_is_error", "C12_known_features_ok", "C12_proto2_file_produces_nothing",
+            "C12_unrequested_file_produces_nothing", "C12_protoc_alone_emits_nothing", "C12_fast_emits",
+            "C12_reserved_names_rewritten", "C12_reserved_oneof_names_rewritten", "C12_model_total"],
+    "C13": ["C13_features_order_independent", "C13_message_index_order_independent", "C13_file_content_independent_of_cogenerated"],
+    "C19": ["C19_flatten_complete", "C19_flatten_parent_before_child", "C19_msgIndex_is_flatten_position", "C19_descPath_resolves_to_self"],
     "C06": ["C06_closure_no_panic", "C06_no_panic", "C06_fuel_irrelevant", "C06_depth_bounded", "C06_too_deep_rejected", "C06_post_usable"],
     "C07": ["C07_reads_frame", "C07_read_history_frame"],
     "C11": ["C11_reads_write_nothing", "C11_read_history", "C11_interleaving"],
@@ -155,7 +166,6 @@ REQUIRED = {
 }
 
 NOT_YET = {
-    "C01": "check under construction (codec engine runs; round-trip theorem not yet proved)",
 }
 
 
